@@ -4,7 +4,7 @@ import ast
 from ..core.model import AnchorError, FuncInfo
 from ..core.cfg import walk_shallow, cfg_of
 from ..core.facts import U, atoms_of
-from ..engine import fn_name, kwarg, local_defs, returns_of, stmts_in, vars_assigned_from, var_from_call
+from ..engine import argn, fn_name, kwarg, local_defs, returns_of, stmts_in, vars_assigned_from, var_from_call
 from ..kinds import cursor as K
 from ..kinds.taint import tainted_returns
 
@@ -39,7 +39,7 @@ def s1(ctx, rep):
         # guarded by ret_val is not None and ret_val.config is not None; the result replaces ret_val
         nid = [n.id for n in cfg.nodes if any(y is pp[0] for y in cfg.node_walk(n.id))][0]
         at = ctx.facts(f).at(nid)
-        rv = U(pp[0].args[0]).split(".")[0]
+        rv = U(argn(pp[0], 0)).split(".")[0]
         ok = ("is", rv, "None", False) in at and ("is", f"{rv}.config", "None", False) in at
         # the suggestion variable is rebuilt with the post-processed configuration (directly or through a temporary)
         from ..engine import deref
@@ -68,7 +68,7 @@ def s1(ctx, rep):
     ok = len(nc) == 1 and U(nc[0]) == "self.config_space.copy()"
     upd = [x for x in walk_shallow(g.node) if isinstance(x, ast.Call) and fn_name(x) == "update" and U(x.func.value) == ncv]
     from ..engine import deref
-    ok = ok and len(upd) == 1 and isinstance(deref(g, upd[0].args[0]), ast.Call) and fn_name(deref(g, upd[0].args[0])) == "cast_config_values"
+    ok = ok and len(upd) == 1 and isinstance(deref(g, argn(upd[0], 0)), ast.Call) and fn_name(deref(g, argn(upd[0], 0))) == "cast_config_values"
     rep.put(ok, "S1", "agreement", "TrialScheduler._postprocess_config: copy of the space (constants kept) updated with the cast values", g, None, "",
             "the post-processed configuration does not start from the full configuration space or is not cast to the domain types")
     # who may call _suggest
@@ -154,13 +154,13 @@ def s2(ctx, rep):
             "a model-based suggestion can be made although initial configurations remain")
     g = P.method("BaseSearcher", "_next_initial_config")
     pops = [x for x in walk_shallow(g.node) if isinstance(x, ast.Call) and fn_name(x) == "pop" and "_points_to_evaluate" in U(x.func.value)]
-    ok = len(pops) == 1 and len(pops[0].args) == 1 and U(pops[0].args[0]) == "0"
+    ok = len(pops) == 1 and len(pops[0].args) == 1 and U(argn(pops[0], 0)) == "0"
     rep.put(ok, "S2", "agreement", "BaseSearcher._next_initial_config pops from the front", g, pops[0] if pops else None, "",
             "initial configurations are not served in the given order")
     # DEHB's internal sampler
     d = P.method("DifferentialEvolutionHyperbandScheduler", "_encoded_config_from_searcher")
     cd = cfg_of(d)
-    pop0 = {n.id for n in cd.nodes if any(isinstance(x, ast.Call) and fn_name(x) == "pop" and "_points_to_evaluate" in U(x.func.value) and U(x.args[0]) == "0"
+    pop0 = {n.id for n in cd.nodes if any(isinstance(x, ast.Call) and fn_name(x) == "pop" and "_points_to_evaluate" in U(x.func.value) and U(argn(x, 0)) == "0"
                                           for x in cd.node_walk(n.id))}
     draw = {n.id for n in cd.nodes if any(isinstance(x, ast.Call) and fn_name(x) == "uniform" and "random_state" in U(x.func.value) for x in cd.node_walk(n.id))}
     ok = bool(pop0) and bool(draw) and all(ctx.has_fact(d, x, lambda a: a[0] == "truth" and a[1] == "self._points_to_evaluate" and a[2] is False) for x in draw)
@@ -190,12 +190,12 @@ def s3(ctx, rep):
     # what is compared for 'seen' is the configuration that is appended (imputed and cast), not the user's raw entry
     from ..engine import deref
     if len(app) == 1:
-        appended = deref(f, app[0][1].args[0])
-        keys_ = [x for x in walk_shallow(f.node) if isinstance(x, ast.Call) and fn_name(x) == "_to_tuple" and x.args]
-        okk = len(keys_) >= 1 and all(U(deref(f, k_.args[0])) == U(appended) for k_ in keys_) and \
+        appended = deref(f, argn(app[0][1], 0))
+        keys_ = [x for x in walk_shallow(f.node) if isinstance(x, ast.Call) and fn_name(x) == "_to_tuple" and argn(x, 0) is not None]
+        okk = len(keys_) >= 1 and all(U(deref(f, argn(k_, 0))) == U(appended) for k_ in keys_) and \
             isinstance(appended, ast.Call) and fn_name(appended) == "_impute_default_config"
         rep.put(okk, "S3", "agreement", "impute_points_to_evaluate: the duplicate test is made on the imputed configuration that is appended", f,
-                keys_[0] if keys_ else None, "", f"the key for the duplicate test is built from `{U(keys_[0].args[0]) if keys_ else '?'}`, the appended value is "
+                keys_[0] if keys_ else None, "", f"the key for the duplicate test is built from `{U(argn(keys_[0], 0)) if keys_ else '?'}`, the appended value is "
                 f"`{U(appended)[:60]}`: entries that become equal only after the mid-point rule / casting are both kept and the same "
                 "configuration is suggested twice")
     tt = P.func("syne_tune.optimizer.schedulers.searchers.searcher._to_tuple")
@@ -236,7 +236,7 @@ def s4(ctx, rep):
     # the recorded configuration is the returned one
     call = [x for n in add for x in cfg.node_walk(n) if isinstance(x, ast.Call) and fn_name(x) == "add"][0]
     rets = [U(r.value) for r in returns_of(f)]
-    rep.put(rets == [U(call.args[0])], "S4", "agreement", "StochasticAndFilterDuplicatesSearcher.get_config records the configuration it returns", f, call, "")
+    rep.put(rets == [U(argn(call, 0))], "S4", "agreement", "StochasticAndFilterDuplicatesSearcher.get_config records the configuration it returns", f, call, "")
     for sub in P.all_subclasses(c):
         if "get_config" in sub.methods and "_get_config" not in sub.methods:
             m = sub.methods["get_config"]
@@ -270,9 +270,9 @@ def s4(ctx, rep):
     for nm in {x.id for x in ast.walk(b.node) if isinstance(x, ast.Name)}:
         for d in local_defs(b, nm):
             if not isinstance(d, tuple) and isinstance(d, ast.Call) and fn_name(d) == "contains" and "duplicate_detector" in U(d.func.value) and len(d.args) == 2:
-                dupv[U(d.args[1])] = (nm, U(d.args[0]))
+                dupv[U(argn(d, 1))] = (nm, U(argn(d, 0)))
     appc = [x for x in walk_shallow(b.node) if isinstance(x, ast.Call) and fn_name(x) == "append"]
-    insv = U(appc[0].args[0]) if appc else "?"
+    insv = U(argn(appc[0], 0)) if appc else "?"
     ins = [n for n in cb.nodes if n.kind == "stmt" and isinstance(n.ast, ast.Assign) and U(n.ast.targets[0]) == insv and U(n.ast.value) != "None"]
     ok = len(ins) == 2 and opt in dupv and orig in dupv and dupv[opt][1] == exl and dupv[orig][1] == exl
     for n in ins:
@@ -326,8 +326,8 @@ def s5(ctx, rep):
         if isinstance(x, ast.comprehension) and x.ifs and protected(x.iter) and not isinstance(getattr(x, "_parent", None), ast.DictComp):
             # a filtering comprehension over pending/failed ids (x.trial_id for x in ... is a map, not a filter)
             bad.append((x.iter, f"comprehension over {protected(x.iter)} with a condition `{U(x.ifs[0])[:50]}`"))
-        if isinstance(x, ast.Call) and fn_name(x) == "filter" and len(x.args) == 2 and protected(x.args[1]):
-            bad.append((x, f"filter(...) over {protected(x.args[1])}"))
+        if isinstance(x, ast.Call) and fn_name(x) == "filter" and len(x.args) == 2 and protected(argn(x, 1)):
+            bad.append((x, f"filter(...) over {protected(argn(x, 1))}"))
     rep.put(not bad, "S5", "taint", "TuningJobState.all_configurations: pending and failed trials are never filtered or subtracted", f,
             bad[0][0] if bad else None, "only the observed trials pass through filter_observed_data",
             (bad[0][1] if bad else "") + ": a failed or pending trial can drop out of the exclusion list and its configuration is suggested again")
@@ -408,10 +408,10 @@ def s6b(ctx, rep):
     P = ctx.P
     f = P.method("GridSearcher", "_generate_all_candidates_on_grid")
     cfg = cfg_of(f)
-    prod = [x for x in walk_shallow(f.node) if isinstance(x, ast.Call) and fn_name(x) == "product" and x.args and isinstance(x.args[0], ast.Starred)]
+    prod = [x for x in walk_shallow(f.node) if isinstance(x, ast.Call) and fn_name(x) == "product" and x.args and isinstance(argn(x, 0), ast.Starred)]
     if len(prod) != 1:
         raise AnchorError("GridSearcher._generate_all_candidates_on_grid: product(*lists) not found")
-    lv = U(prod[0].args[0].value)
+    lv = U(argn(prod[0], 0).value)
 
     def dedup(e, depth=3):
         """expression whose value has no repeated elements"""
@@ -422,7 +422,7 @@ def s6b(ctx, rep):
                 return dedup(ds[0], depth - 1)
             return False
         if isinstance(e, ast.Call) and fn_name(e) in ("list", "sorted", "tuple") and e.args:
-            return dedup(e.args[0])
+            return dedup(argn(e, 0))
         if isinstance(e, ast.Call) and fn_name(e) in ("set", "frozenset", "unique", "fromkeys"):
             return True
         if isinstance(e, (ast.Set, ast.SetComp)):
@@ -436,7 +436,7 @@ def s6b(ctx, rep):
             if not (isinstance(x, ast.Call) and fn_name(x) == "append" and U(x.func.value) == lv and x.args):
                 continue
             n += 1
-            v = x.args[0]
+            v = argn(x, 0)
             ok, why = False, U(v)
             if dedup(v):
                 ok = True
@@ -507,10 +507,10 @@ def s7(ctx, rep):
         if isinstance(v, ast.Call) and fn_name(v) == "sample" and U(v.func.value) == dom:
             ok = kwarg(v, "random_state") is not None
             how = "hp_range.sample(random_state=...)"
-        elif isinstance(v, ast.Call) and fn_name(v) == "cast" and U(v.func.value) == dom and v.args and isinstance(v.args[0], ast.Call) \
-                and fn_name(v.args[0]) == "clip":
-            c = v.args[0]
-            ok = len(c.args) == 3 and U(c.args[1]) == f"{dom}.lower" and U(c.args[2]) == f"{dom}.upper"
+        elif isinstance(v, ast.Call) and fn_name(v) == "cast" and U(v.func.value) == dom and v.args and isinstance(argn(v, 0), ast.Call) \
+                and fn_name(argn(v, 0)) == "clip":
+            c = argn(v, 0)
+            ok = len(c.args) == 3 and U(argn(c, 1)) == f"{dom}.lower" and U(argn(c, 2)) == f"{dom}.upper"
             how = "hp_range.cast(np.clip(·, lower, upper))"
         rep.put(ok, "S7", "taint", f"PopulationBasedTraining._explore: new_config[key] := {how or U(v)[:40]}", f, st, "",
                 f"`{U(st)[:80]}` stores a perturbed value that is neither sampled from the domain nor clipped to its bounds and cast")
